@@ -30,6 +30,9 @@ Step ==
             /\ Ev.finalize_raw = Ev.raw
             /\ \A i \in DOMAIN Ev.oneshot_hex : Ev.oneshot_hex[i] = HexEnc(Ev.expected, FALSE)
             /\ \A i \in DOMAIN Ev.oneshot_hex_uc : Ev.oneshot_hex_uc[i] = HexEnc(Ev.expected, TRUE)
+      [] Ev.e = "digest_big" ->                                      \* a message of 2^29 bytes and more (its bytes are not logged): digest and one-shot helper vs. hashlib
+            /\ Ev.partition /\ Len(Ev.raw) = DigestLen(Ev.algo) /\ Ev.raw = Ev.expected
+            /\ \A i \in DOMAIN Ev.oneshot_hex : Ev.oneshot_hex[i] = HexEnc(Ev.expected, FALSE)
       [] Ev.e = "siphash" ->
             /\ Ev.plain = Ev.expected /\ Ev.vector = Ev.expected /\ Ev.dispatch = Ev.expected
       [] OTHER -> FALSE
